@@ -95,6 +95,9 @@ type Config struct {
 	POddAmount  float64 `json:"p_odd_amount"`
 	PLateClaim  float64 `json:"p_late_claim"`
 	PMultiOp    float64 `json:"p_multi_op"`
+	// Burst: once in the run, this many ordinary contracts are created in one block with one
+	// time lock, so that more than a hundred fall due in the same block
+	Burst int `json:"burst,omitempty"`
 	GenesisUnix int64   `json:"genesis_unix"`
 }
 
@@ -242,6 +245,7 @@ type Module struct {
 	donations map[string]*big.Int
 	prevTime  time.Time
 	begun     bool
+	burstDone bool
 	touched   map[string]bool // ids whose model state changed in the current block
 	started   bool
 	// escrowLive: the module itself has used its account (an accepted escrowing creation or
@@ -438,7 +442,50 @@ func (m *Module) Configure(w *engine.World, r *engine.Rand) any {
 	c.POddAmount = 0.15 * r.Float()
 	c.PLateClaim = 0.15 * r.Float()
 	c.PMultiOp = 0.1 * r.Float()
+	// (a stream of its own: a seed's run is otherwise what it was before this arm existed)
+	if br := engine.NewRand(engine.Mix(w.Sched.Seed, "htlc-burst", 0)); br.Bool(0.06) {
+		c.Burst = 101 + br.Intn(40)
+	}
 	return c
+}
+
+// genBurst: Burst ordinary contracts of small amounts, created by several senders in large
+// transactions of one block, all with the same time lock.
+func (m *Module) genBurst(w *engine.World, r *engine.Rand) *engine.TxPlan {
+	m.burstDone = true
+	if len(m.cfg.PlainDenoms) == 0 {
+		return nil
+	}
+	nAct := len(w.Actors) - 1
+	per := 26 + r.Intn(9)
+	lock := uint64(genMinLock + r.Intn(6))
+	at := w.Height + 1
+	var first *engine.TxPlan
+	left := m.cfg.Burst
+	for s := 0; left > 0; s++ {
+		sender := s % nAct
+		tp := &engine.TxPlan{At: at, NoOOG: true}
+		for k := 0; k < per && left > 0; k++ {
+			a := createArgs{Why: "plain", To: w.A((sender + 1 + r.Intn(nAct-1)) % nAct).Addr.String(), TimeLock: lock}
+			a.Amount = []argCoin{{m.cfg.PlainDenoms[r.Intn(len(m.cfg.PlainDenoms))], fmt.Sprint(1 + r.Intn(50))}}
+			secret := hexOf(r.Bytes(32))
+			sb, _ := hex.DecodeString(secret)
+			if r.Bool(0.5) {
+				a.Timestamp = uint64(w.Time.Unix() + r.Range(-1000, 1000))
+			}
+			a.HashLock = hexOf(hashLockOf(sb, a.Timestamp))
+			tp.Ops = append(tp.Ops, engine.NewOp(Name, "create_plain", sender, a))
+			m.remember(sender, a, secret, w, r)
+			left--
+		}
+		if first == nil {
+			first = tp
+		} else {
+			first.Also = append(first.Also, tp)
+		}
+	}
+	w.Hit("htlc.expiry_burst_planned")
+	return first
 }
 
 func (m *Module) LoadConfig(w *engine.World, raw json.RawMessage) {
@@ -1141,6 +1188,9 @@ func (m *Module) genParams(w *engine.World, r *engine.Rand) *engine.TxPlan {
 }
 
 func (m *Module) Gen(w *engine.World, r *engine.Rand) *engine.TxPlan {
+	if m.cfg.Burst > 0 && !m.burstDone && w.Height >= 4 {
+		return m.genBurst(w, r)
+	}
 	if r.Bool(m.cfg.PParam) {
 		return m.genParams(w, r)
 	}
